@@ -167,7 +167,7 @@ def main():
             "add_only": True,
         },
         "engines": [
-            {"name": "E1 sched", "path": "/verif/mc/sched + /verif/shim + /verif/mc/checks/util_fresh.go + /verif/mc/cmd/vinstr", "serves_properties": ["C14", "C13"] + ALL, "kind_free_text": "hand-written controlled cooperative scheduler + preemption-bounded DFS and unbounded state-caching exploration (stateless model checking of the real code)"},
+            {"name": "E1 sched", "path": "/verif/mc/sched + /verif/shim + /verif/mc/checks/util_fresh.go + /verif/mc/cmd/vinstr", "serves_properties": ALL, "kind_free_text": "hand-written controlled cooperative scheduler + preemption-bounded DFS and unbounded state-caching exploration (stateless model checking of the real code)"},
             {"name": "E2 opseq", "path": "/verif/mc/checks/c13.go (+ c03.go, c11.go)", "serves_properties": ["C13", "C03", "C08", "C11"], "kind_free_text": "explicit-state breadth-first search over operation histories, every transition calls the real method"},
             {"name": "E3 enum", "path": "/verif/mc/checks", "serves_properties": ["C01","C02","C04","C05","C06","C07","C09","C10","C12","C16","C17","C18","C19","C20"], "kind_free_text": "bounded-exhaustive enumeration of finite input lattices against exact reference models"},
             {"name": "E4 faults", "path": "/verif/mc/checks/c15.go", "serves_properties": ["C15"], "kind_free_text": "exhaustive byte-fault enumeration over a corpus of valid encodings, decoders run in worker sub-processes"},
